@@ -30,6 +30,8 @@ Lemma clh_sync_bg_push_back : fact_sync_bg_push_back = true. Proof. reflexivity.
 Lemma clh_dequeue_pops_front : fact_dequeue_pops_front = true. Proof. reflexivity. Qed.
 Lemma clh_drain_requeues_via_requeue : fact_drain_requeues_via_requeue = true. Proof. reflexivity. Qed.
 Lemma clh_drop_is_sync_free : fact_drop_is_sync_free = true. Proof. reflexivity. Qed.
+(* ... and does nothing else: no early return, no other path that frees the value (the model's drop is exactly one OSync) *)
+Lemma clh_drop_only_syncs : fact_drop_only_syncs = true. Proof. reflexivity. Qed.
 
 Theorem C02_now : forall nq mx scripts tr s A B q ka kb,
     run gen_tables gen_facts (init nq mx scripts) tr = Some s ->
